@@ -645,6 +645,10 @@ func runGRPCClientCtx(t *testing.T, codesScript []int, withTimeout bool, custom 
 			case c == -2:
 				return errors.New("plain")
 			default:
+				if (i+len(codesScript))%2 == 1 {
+					// an interceptor chained below annotates the error: the status is still what the call ended with
+					return fmt.Errorf("annotated below: %w", status.Error(codes.Code(c), "scripted"))
+				}
 				return status.Error(codes.Code(c), "scripted")
 			}
 		}
